@@ -8,7 +8,7 @@ P = {
  "C01": dict(
   technique="bounded-exhaustive element-building atom strings (27 delimiter pairs) + random junk / AST / hostile-layout / mutated documents through clean, list, list_all x 2 formats (proptest-driven, shrinking, text minimisation), validity oracle (returns, Ok, JSON parses); process-abort isolation with breadcrumbs; libFuzzer target fz_total in the thorough tier",
   text="Exploration: every atom string up to a bound for 27 delimiter pairs (incl. hostile ones: space, line break, quote, letters) and random junk / structured / hostile-layout documents (shared tag lines, straddling children, text glued to tags, multi-byte words, CRLF) are pushed through all five entry points under random configurations, built with overflow checks; any panic, Err, unparsable JSON or abort of the process is a violation. Totality over an infinite input space cannot be proved by testing; the enumerated sub-space is complete.",
-  note="Assumes non-empty delimiters (stated in the property). Nesting depth bounded by generated size (reported). A hang is reported as inconclusive (watchdog), never as a violation.",
+  note="Assumes non-empty delimiters (stated in the property). Chains of up to 2 500 simultaneously open tags / stray closers are asserted; the stack overflow beyond ~16 400 is known finding KF4. A hang is reported as inconclusive (watchdog), never as a violation.",
   ref="6/C01"),
  "C02": dict(
   technique="random AST documents (ground truth by construction) and junk/mutated documents (reference model R1-R5) compared with clean: deletion-only + every outside non-whitespace character present in order",
@@ -28,7 +28,7 @@ P = {
  "C05": dict(
   technique="exhaustive grid (boundary instants x second deltas x 105 offsets x 2 spellings) and random instants against independent civil-time arithmetic; enumerated malformed classes; monotonicity as a metamorphic relation; CLI zone spellings",
   text="Exploration: the decision is compared with an independent days-from-civil computation on a complete grid around every boundary the property names, plus random instants; malformed classes enumerated.",
-  note="chrono's lenient forms (single-digit fields, 2-digit years, second 60, extra spaces) are gray zones and never generated.",
+  note="chrono's lenient forms (single-digit fields, 2-digit years, second 60, other whitespace between date and time) are gray zones and never generated. Malformed `to` x malformed offset and 'a well-formed pair cut anywhere' are enumerated.",
   ref="6/C05"),
  "C06": dict(
   technique="exhaustive target sets (subsets <= 3 of an adversarial name pool) x probe elements x skip placements, random documents, and the CLI without target options; exact-membership oracle",
@@ -56,14 +56,14 @@ P = {
   note="Tokenization is trusted here (C07/C08 cover it).",
   ref="6/C10"),
  "C11": dict(
-  technique="grid-enumerated and random AST block documents with per-line ground truth by construction; expected surviving lines modulo indentation; strict line-for-line sub-space; structural shrinking",
+  technique="grid-enumerated and random AST block documents with per-line ground truth by construction; expected surviving lines modulo indentation; line-for-line comparison (blank lines included) outside four named residue classes; structural shrinking",
   text="Exploration: unwrap elements with 0..6 body lines at every position; the surviving lines are known by construction.",
-  note="Tags never sit on wrapper lines; blank residue lines are only asserted in the strict sub-space (section 6/C11).",
+  note="Tags never sit on wrapper lines. The line-for-line assertion covers every document except four classes named by an input predicate: adjacent removed parts (known finding KF5), blank lines on both sides of an unwrap part (KF6), default-strategy removal between blank lines (C13 specifies it) and removed parts at the first / last line; there only the non-blank lines are compared.",
   ref="6/C11"),
  "C12": dict(
-  technique="random AST unwrap documents over three indentation units and nesting depth <= 3; by-construction expected indentation of every surviving inner line",
+  technique="grid + random AST unwrap documents over three indentation units and nesting depth <= 3; by-construction expected indentation of every surviving inner line; second sub-check with inline elements inside bodies and children reaching into wrapper / tag lines (oracle over the text after removal, line by line)",
   text="Exploration with an exact by-construction oracle for the indentation of every surviving inner line.",
-  note="Layouts with overlapping dedent ranges (inner tag left of outer column + outer dedent) are excluded as ambiguous; whitespace-only inner lines are not asserted.",
+  note="Layouts with overlapping dedent ranges (inner tag left of outer column + outer dedent) or whose first inner line begins with a removed region are excluded as ambiguous and counted; whitespace-only inner lines are not asserted; known findings KF1 and KF7 exempt the indentation of one line each.",
   ref="6/C12"),
  "C13": dict(
   technique="exhaustive (b,a) in 0..4 x layout grid + random block documents; by-construction surviving lines and blank-line formula",
@@ -71,7 +71,7 @@ P = {
   note="The formula is asserted only under the property's own precondition (single removed block between surviving non-blank lines).",
   ref="6/C13"),
  "C14": dict(
-  technique="same cases as C02; every maximal kept stretch (trimmed) must occur verbatim and in order in the output, line by line inside unwrapped bodies",
+  technique="same cases as C02; every maximal kept stretch (trimmed) must occur verbatim and in order in the output, line by line inside unwrapped bodies; two more sub-checks take the removed ranges from the implementation's own markers so that layouts with undefined reference extents are covered too",
   text="Exploration on structured, inline, junk and mutated documents with the kept stretches computed from construction / the reference model.",
   note="Same domain restrictions as C02.",
   ref="6/C14"),
@@ -98,7 +98,7 @@ P = {
  "C19": dict(
   technique="stateful: histories of 1..4 cleaning steps (non-decreasing times / growing target sets) interpreted step by step with invariants after every step (idempotence, composition up to whitespace, nothing stranded)",
   text="Exploration of operation histories over random documents with all chains up to length 4.",
-  note="Tags off wrapper lines and non-blank wrapper lines (otherwise composition is false by the definition of unwrap-block).",
+  note="Tags on / blank wrapper lines (KF3), foreign tags on an unwrap-block's own tag line (KF8) and text that a removal joins into a delimiter (KF9) are generated, excluded by input signature and counted as known findings. Unwrap-blocks whose tag lines are shared with code only are asserted through the relations between runs (their by-construction extents are undefined).",
   ref="6/C19"),
  "C20": dict(
   technique="differential: the chiritori binary (rebuilt from /repo) under generated option combinations, 10-11 runs per case over I/O paths (file/stdin x stdout/--output/in-place), long and short options, config file vs flags, explicit vs omitted defaults and 5 TZ/locale environments, compared byte for byte with the library result",
